@@ -758,3 +758,28 @@ theorem initScalar_expand (Ab : CRS (Blk K)) (hs : Ab.sortedb = true) (B act : N
 end final
 
 end Amgcl.CPR
+
+namespace Amgcl.CPR
+open Amgcl
+
+section updblock
+variable {K : Type} [Field K] [DecidableEq K]
+
+/-- `partial_update` of the block-valued object with an unchanged (row-sorted) matrix is the identity on the object -/
+theorem partialUpdateBlock_same (Ab : CRS (Blk K)) (hs : Ab.sortedb = true) (B act : Nat) (hB : 0 < B) (upd : Bool) :
+    partialUpdateBlock (initBlock Ab B act) Ab B act upd = initBlock Ab B act := by
+  unfold partialUpdateBlock
+  rw [K2.sortRows_of_sorted Ab hs]
+  cases upd with
+  | false => rfl
+  | true =>
+    simp only [if_true]
+    have hn : (initBlock Ab B act).n / B = Ab.nrows := by
+      show Ab.nrows * B / B = Ab.nrows
+      exact Nat.mul_div_cancel _ hB
+    rw [hn]
+    rfl
+
+end updblock
+
+end Amgcl.CPR
